@@ -81,6 +81,7 @@ void Exec::op_alloc(const Op& op) {
 void Exec::free_slot(int s, const std::string& f0) {
   Blk& b = m.slots[s]; if (!b.live) return;
   if (b.stranded) { count(C_EXCLUDED); return; }   // known finding F5: a local free of such a block crashes
+  if (b.foreign) flag(F_FOREIGN_FREED);
   verify_blk(s, "before-free");
   uint8_t* p = b.p; size_t n = b.n, a = (b.o == 0 ? b.a : 1); std::string f = f0;
   // dirty the whole usable area so zeroing entry points have something to clear
